@@ -13,7 +13,8 @@ What is abstract: the namespace tree is a flat list of entries in `get_all_types
 C11's model), the class hierarchy behind `type_to_template` is a per-entry candidate list (C16's model), the
 content of files is not modelled at all — only *which* files are read, listed, created.
 
-The model describes the code **after** the two proposed fixes: `fix_list_outputs_omit` (the listing path hands
+The model describes the code **after** the proposed fixes: `fix_list_configuration_skips_dsdl` (round 2: the DSDL front end
+is skipped only when `run` really does nothing but list the configuration; before: `runLcBeforeFix`), `fix_list_outputs_omit` (the listing path hands
 `--omit-serialization-support` to the generators exactly like the generating path) and
 `fix_list_inputs_support_templates` (`SupportGenerator.get_templates` reports the file its loader opens).  The
 behaviour of the unchanged code is kept as `listOutputsOnlyBeforeFix` / `listInputsOnlyBeforeFix` / `runBeforeFix`.
@@ -365,6 +366,20 @@ def runWith (lo li : Args → List (Entry × OutPath) → Run) (m : Mode) (a : A
     match m with
     | .listOutputs => lo a tree
     | .listInputs => li a tree
+    | .listConfiguration => {}
+    | .dryRun => generate a true tree
+    | .generate => generate a false tree
+
+/-- The code before `fix_list_configuration_skips_dsdl`: `ArgparseRunner.__init__` skipped the DSDL front end whenever
+`--list-configuration` was given (`lcFlag`), although `run` lets `--list-outputs` / `--list-inputs` win over it. -/
+def runLcBeforeFix (m : Mode) (lcFlag : Bool) (a : Args) (entries : List Entry) : Run :=
+  if !accepted a then { err := some .parserReject } else
+  match buildTree a (if lcFlag then [emptyRoot] else treeEntries a entries) with
+  | .error x => { err := some x }
+  | .ok tree =>
+    match m with
+    | .listOutputs => listOutputsOnly a tree
+    | .listInputs => listInputsOnly a tree
     | .listConfiguration => {}
     | .dryRun => generate a true tree
     | .generate => generate a false tree
